@@ -279,8 +279,10 @@ def run(ck):
                     "meaning": "`code_value` is what the real templates compute for storage cell `output` at `inputs_exact` "
                                "(`real_code_double_result` in double precision); `spec_value` is the eager value "
                                "(right-hand side evaluated element-wise from the values before the statement, then assigned)"})
-        ck.violation(key, "program `%s`: storage cell %s = %s, eager value %s (the lazy right-hand side reads an already overwritten cell)"
-                     % (" ".join(s[0] for s in P.stmts), f["output"], f["code_value_exact"], f["spec_value_exact"]), rep, True)
+        ck.violation(key, "program `%s`: storage cell %s = %s, eager value %s%s"
+                     % (" ".join(s[0] for s in P.stmts), f["output"], f["code_value_exact"], f["spec_value_exact"],
+                        " (the lazy right-hand side reads an already overwritten cell)" if key.startswith("aliasing:") else
+                        " (no harmful aliasing in this program: the expression templates or a view's cell map are wrong)"), rep, True)
     if not res.ok:
         # a program obligation that no longer checks: look for a failing input of that program (same key as a
         # refuted program: the defect class, not the program number); everything else through lean_violations
